@@ -145,7 +145,7 @@ CLAIMS.update({
              "non-increasing score order with equal scores kept in input order; a multi-column pattern (MultiPattern::score, companion file C15_Multi) matches iff every column's pattern "
              "matches that column's text - column k against text k whether or not other columns are empty - and its score is the sum of the columns' scores (C15_multi, "
              "C15_multi_empty_column), an all-empty multi-column pattern gives every item score 0 (C15_multi_all_empty; C15_empOk discharges the hypothesis EmpOk of the worker-protocol theorems of C06 / C07 "
-             "for the scoring function the worker uses); what one atom decides is a theorem for all five kinds at once (companion file C15_AtomDecision: C15_atom_decision - the matcher call of a fuzzy / substring / prefix / postfix / exact atom succeeds exactly when the predicate kindDec holds of the normalized haystack, collecting the decision theorems of C01 and C05 including one-character substring needles). Tied to the code by correspondence on random patterns sharing one Matcher, and on MultiPatterns of 1-3 columns in which every subset of the columns has a pattern.",
+             "for the scoring function the worker uses); Atom::score and Atom::indices are translated from the source on every run (Gen/AtomEval.lean: kind -> entry point in score and in both branches of indices, flags written first, negation) and proved to be the model's Atom.eval (companion file C15_EvalTranslated); what one atom decides is a theorem for all five kinds at once (companion file C15_AtomDecision: C15_atom_decision - the matcher call of a fuzzy / substring / prefix / postfix / exact atom succeeds exactly when the predicate kindDec holds of the normalized haystack, collecting the decision theorems of C01 and C05 including one-character substring needles). Tied to the code by correspondence on random patterns sharing one Matcher, and on MultiPatterns of 1-3 columns in which every subset of the columns has a pattern.",
         note="Trusted: Lean kernel, axioms propext/Classical.choice/Quot.sound, harness+driver; the matcher calls are those of C01-C05 (same model). MultiPattern::score is modelled (multiEval) and compared on the N lines; the worker's use of it is covered by the nucleo-level checks."),
     "C08": dict(
         technique="Lean 4 inductive invariant over all interleavings of a small-step model at atomic-operation granularity + replay of real seeded schedules on the model",
